@@ -48,8 +48,14 @@ def strat_map(with_rot=False):
                 fences = []
                 for i in range(k):
                     if i == inner:
-                        ridges.append(dict(x0=draw(st.integers(6, xa - 12)), x1=W - draw(st.integers(6, W - xb - 12)), y=float(y), slope=0.0,
-                                           asc=float(draw(st.integers(2, 4))), desc=float(draw(st.integers(1, 2))), amp=1.0, ends=draw(st.booleans())))
+                        # wider than the paragraph on both sides, on one side only, or lying wholly inside it
+                        left_out, right_out = draw(st.sampled_from([(True, True), (True, True), (True, False), (False, True), (False, False)]))
+                        bx0 = draw(st.integers(6, xa - 12)) if left_out else xa + draw(st.integers(10, 24))
+                        bx1 = W - draw(st.integers(6, W - xb - 12)) if right_out else xb - draw(st.integers(10, 24))
+                        bx1 = max(bx1, bx0 + 6)
+                        ridges.append(dict(x0=bx0, x1=bx1, y=float(y), slope=0.0,
+                                           asc=float(draw(st.integers(2, 4))), desc=float(draw(st.integers(1, 2))), amp=1.0,
+                                           ends=draw(st.booleans()) and bx1 - bx0 >= 12))
                         fences.append(draw(st.sampled_from(["both", "both", "above", "below"])))
                     else:
                         ridges.append(dict(x0=xa + draw(st.integers(0, 6)), x1=xb - draw(st.integers(0, 6)), y=float(y), slope=0.0,
